@@ -105,7 +105,7 @@ def render_scene(sc, dyadic=False):
 
 @st.composite
 def image_spec(draw, lo=1, hi=40, nonfinite=True, integer_valued=None,
-               positive=False):
+               positive=False, big=1e300):
     ny = draw(st.integers(lo, hi))
     nx = draw(st.integers(lo, hi))
     kind = draw(st.sampled_from(['int', 'normal', 'huge', 'const']))
@@ -121,7 +121,7 @@ def image_spec(draw, lo=1, hi=40, nonfinite=True, integer_valued=None,
             spec['special'].append([draw(st.integers(0, ny - 1)),
                                     draw(st.integers(0, nx - 1)),
                                     draw(st.sampled_from([NAN, INF, -INF,
-                                                          1e300, -1e300]))])
+                                                          big, -big]))])
     return spec
 
 
